@@ -25,9 +25,11 @@ const (
 	opIter
 	opCommit
 	opAbandon
+	opInsertChain // nested prefixes q/len, q/len+1, ... (deep paths: one node per stored prefix)
+	opDeleteChain
 )
 
-var opNames = []string{"begin", "insert", "delete", "read", "iter", "commit", "abandon"}
+var opNames = []string{"begin", "insert", "delete", "read", "iter", "commit", "abandon", "insertChain", "deleteChain"}
 
 type Op struct {
 	K    int    `json:"k"`
@@ -37,6 +39,7 @@ type Op struct {
 	Val  int    `json:"val,omitempty"`
 	A    int    `json:"a,omitempty"` // base version / read kind / iterator kind
 	B    int    `json:"b,omitempty"` // consume count / reuse flag
+	N    int    `json:"n,omitempty"` // chain operations: number of nested prefixes
 }
 
 type Case struct {
@@ -386,6 +389,27 @@ func run(c Case) (res result) {
 				err = fail("insert", "Insert(%x/%d) returned %v", q.bits, q.len, e)
 			}
 			txModel[q] = o.Val
+		case opInsertChain, opDeleteChain:
+			if tx == nil {
+				begin(len(versions)-1, o.B%2 == 1)
+			}
+			for i := 0; i < o.N && err == nil && o.Len+i <= u.width*8; i++ {
+				p := u.norm(o.Bits, o.Flip, o.Len+i)
+				if o.K == opInsertChain {
+					if e := tx.Insert(u.key(p), o.Val+i); e != nil {
+						err = fail("insert", "Insert(%x/%d) returned %v", p.bits, p.len, e)
+					}
+					txModel[p] = o.Val + i
+				} else {
+					wv, wok := txModel[p]
+					v, ok := tx.Delete(u.key(p))
+					delete(txModel, p)
+					if ok != wok || (ok && v != wv) {
+						err = fail("delete", "Delete(%x/%d)=%d,%v, model %d,%v", p.bits, p.len, v, ok, wv, wok)
+					}
+				}
+			}
+			res.classes = append(res.classes, "chain")
 		case opDelete:
 			if tx == nil {
 				begin(len(versions)-1, o.B%2 == 1)
@@ -521,6 +545,10 @@ func genCase(t *rapid.T) Case {
 	max := c.Width * 8
 	lens := []int{0, 1, 2, 7, 8, 9, 15, 16, 17, 23, 24, 25, 31, 32, 33, 63, 64, 65, 96, 120, 127, 128}
 	kinds := []int{opBegin, opInsert, opInsert, opInsert, opInsert, opDelete, opDelete, opRead, opRead, opRead, opIter, opCommit, opCommit, opAbandon}
+	if c.Width >= 4 && rapid.IntRange(0, 2).Draw(t, "chains") == 0 {
+		// deep tries: runs of nested prefixes (more than 32 nodes on one path)
+		kinds = append(kinds, opInsertChain, opInsertChain, opDeleteChain, opDelete)
+	}
 	genOp := rapid.Custom(func(t *rapid.T) Op {
 		o := Op{K: rapid.SampledFrom(kinds).Draw(t, "k")}
 		o.Bits = genBits(t)
@@ -533,6 +561,10 @@ func genCase(t *rapid.T) Case {
 			o.Flip = 1 + rapid.IntRange(0, max-1).Draw(t, "flip")
 		}
 		o.Val = rapid.IntRange(0, 9).Draw(t, "val")
+		if o.K == opInsertChain || o.K == opDeleteChain {
+			o.N = rapid.SampledFrom([]int{1, 2, 5, 30, 33, 34, 40, 70}).Draw(t, "chainLen")
+			o.Len = rapid.SampledFrom([]int{0, 0, 1, 2, 20, 31, 32, 60}).Draw(t, "chainFrom")
+		}
 		o.A = rapid.IntRange(0, 6).Draw(t, "a")
 		o.B = rapid.IntRange(0, 3).Draw(t, "b")
 		return o
@@ -541,7 +573,7 @@ func genCase(t *rapid.T) Case {
 	return c
 }
 
-const rule = "histories of 1..40 operations on lpm.Trie over 8/16/32/128-bit universes (prefix lengths 0..max, bit patterns sharing long common prefixes): inserts, deletes, reads (Len, LookupExact, Lookup of full-length keys and of stored prefixes, Prefix, LowerBound, All) and partially consumed iterators inside transactions, commits (with Clear/Reuse of the transaction object), abandons and branches off any earlier version; all results compared with a map model ordered by (bits, length) and every committed trie and retained iterator re-read after every step. Non-trivial = a deletion left an imaginary fork (deleted prefix with stored descendants on both sides) and a Lookup/Prefix/LowerBound query diverged inside a compressed path; distinct by case encoding."
+const rule = "histories of 1..40 operations on lpm.Trie over 8/16/32/128-bit universes (prefix lengths 0..max, bit patterns sharing long common prefixes): inserts, deletes, runs of up to 70 nested prefixes (paths deeper than 32 nodes), reads (Len, LookupExact, Lookup of full-length keys and of stored prefixes, Prefix, LowerBound, All) and partially consumed iterators inside transactions, commits (with Clear/Reuse of the transaction object), abandons and branches off any earlier version; all results compared with a map model ordered by (bits, length) and every committed trie and retained iterator re-read after every step. Non-trivial = a deletion left an imaginary fork (deleted prefix with stored descendants on both sides) and a Lookup/Prefix/LowerBound query diverged inside a compressed path; distinct by case encoding."
 
 func TestC13Trie(t *testing.T) {
 	const test = "TestC13Trie"
